@@ -66,6 +66,7 @@ type World struct {
 	// Net: the controller uses the real backend (backend/remote + rpc) against scripted replica endpoints (net.go)
 	Net        bool
 	lateBudget int // replies later than the rpc deadline still allowed in this history (net mode)
+	forceHang  bool // the next monitor failure is of the hang-then-drop kind (net mode)
 	// OperatorRW: an operator request set a replica's mode to RW by hand (no verification, no counter equalisation)
 	OperatorRW bool
 
@@ -307,7 +308,7 @@ func (w *World) CheckSettled(after string) {
 		return
 	}
 	if !w.Settle() {
-		w.FailAny([]string{"C05", "C18", "C03", "C13", "C02", "C04"}, "settle:replica-with-fired-monitor-still-attached:"+after, "a replica whose monitor reported a failure (or was stopped) is still attached after 5s: "+w.Describe())
+		w.FailAny([]string{"C05", "C18", "C03", "C13", "C02", "C04", "C15"}, "settle:replica-with-fired-monitor-still-attached:"+after, "a replica whose monitor reported a failure (or was stopped) is still attached after 5s: "+w.Describe())
 		return
 	}
 	type failure struct{ prop, sig, what string }
